@@ -6,15 +6,17 @@ use crate::common::{
     models::{ErrorTypePath, TypeName},
 };
 
-use super::super::models::FloatValidator;
+use super::super::models::{FloatInnerType, FloatValidator};
 
 pub fn gen_validation_error_type<T: ToTokens>(
     type_name: &TypeName,
+    inner_type: &FloatInnerType,
     error_type_path: &ErrorTypePath,
     validators: &[FloatValidator<T>],
 ) -> TokenStream {
     let definition = gen_definition(error_type_path, validators);
-    let impl_display_trait = gen_impl_display_trait(type_name, error_type_path, validators);
+    let impl_display_trait =
+        gen_impl_display_trait(type_name, inner_type, error_type_path, validators);
     let impl_error_trait = gen_impl_error_trait(error_type_path);
 
     quote! {
@@ -64,21 +66,36 @@ fn gen_definition<T>(
 
 fn gen_impl_display_trait<T: ToTokens>(
     type_name: &TypeName,
+    inner_type: &FloatInnerType,
     error_type_path: &ErrorTypePath,
     validators: &[FloatValidator<T>],
 ) -> TokenStream {
+    // A bound given as an expression has no type of its own: evaluate it as a value of the inner
+    // type, the way the validator does, before printing it.
     let match_arms = validators.iter().map(|validator| match validator {
         FloatValidator::Greater(val) => quote! {
-             #error_type_path::GreaterViolated => write!(f, "{} is too small. The value must be greater than {:#?}.", stringify!(#type_name), #val)
+             #error_type_path::GreaterViolated => {
+                 let bound: #inner_type = #val;
+                 write!(f, "{} is too small. The value must be greater than {:#?}.", stringify!(#type_name), bound)
+             }
         },
         FloatValidator::GreaterOrEqual(val) => quote! {
-             #error_type_path::GreaterOrEqualViolated => write!(f, "{} is too small. The value must be greater or equal to {:#?}.", stringify!(#type_name), #val)
+             #error_type_path::GreaterOrEqualViolated => {
+                 let bound: #inner_type = #val;
+                 write!(f, "{} is too small. The value must be greater or equal to {:#?}.", stringify!(#type_name), bound)
+             }
         },
         FloatValidator::LessOrEqual(val) => quote! {
-             #error_type_path::LessOrEqualViolated=> write!(f, "{} is too big. The value must be less than {:#?}.", stringify!(#type_name), #val)
+             #error_type_path::LessOrEqualViolated=> {
+                 let bound: #inner_type = #val;
+                 write!(f, "{} is too big. The value must be less than {:#?}.", stringify!(#type_name), bound)
+             }
         },
         FloatValidator::Less(val) => quote! {
-             #error_type_path::LessViolated=> write!(f, "{} is too big. The value must be less than {:#?}.", stringify!(#type_name), #val)
+             #error_type_path::LessViolated=> {
+                 let bound: #inner_type = #val;
+                 write!(f, "{} is too big. The value must be less than {:#?}.", stringify!(#type_name), bound)
+             }
         },
         FloatValidator::Predicate(_) => quote! {
              #error_type_path::PredicateViolated => write!(f, "{} failed the predicate test.", stringify!(#type_name))
